@@ -25,7 +25,9 @@ type Msg struct {
 	ErrorCode    int
 	HasIntegrity bool
 	HasFinger    bool
-	M            *stun.Message
+	// TrailingUnauthenticated: attributes other than FINGERPRINT follow MESSAGE-INTEGRITY
+	TrailingUnauthenticated bool
+	M                       *stun.Message
 }
 
 // Decode parses a datagram payload.
@@ -48,20 +50,42 @@ func Decode(p []byte) Msg {
 		out.Username = string(u)
 		out.HasUsername = true
 	}
-	out.UseCandidate = m.Contains(stun.AttrUseCandidate)
-	if v, err := m.Get(stun.AttrType(ice.DefaultNominationAttribute)); err == nil && len(v) == 4 {
+	// RFC 5389 section 15.4: attributes that follow MESSAGE-INTEGRITY (other than FINGERPRINT) are not
+	// covered by it and must be ignored - the checker's view of a message consists of the covered ones only
+	covered := len(m.Attributes)
+	for i, a := range m.Attributes {
+		if a.Type == stun.AttrMessageIntegrity {
+			covered = i
+			break
+		}
+	}
+	for i := covered + 1; i < len(m.Attributes); i++ {
+		if m.Attributes[i].Type != stun.AttrFingerprint {
+			out.TrailingUnauthenticated = true
+		}
+	}
+	get := func(t stun.AttrType) ([]byte, bool) {
+		for _, a := range m.Attributes[:covered] {
+			if a.Type == t {
+				return a.Value, true
+			}
+		}
+		return nil, false
+	}
+	_, out.UseCandidate = get(stun.AttrUseCandidate)
+	if v, ok := get(stun.AttrType(ice.DefaultNominationAttribute)); ok && len(v) == 4 {
 		n := uint32(v[1])<<16 | uint32(v[2])<<8 | uint32(v[3])
 		out.Nomination = &n
 	}
-	if v, err := m.Get(stun.AttrICEControlling); err == nil && len(v) == 8 {
+	if v, ok := get(stun.AttrICEControlling); ok && len(v) == 8 {
 		x := be64(v)
 		out.Controlling = &x
 	}
-	if v, err := m.Get(stun.AttrICEControlled); err == nil && len(v) == 8 {
+	if v, ok := get(stun.AttrICEControlled); ok && len(v) == 8 {
 		x := be64(v)
 		out.Controlled = &x
 	}
-	if v, err := m.Get(stun.AttrPriority); err == nil && len(v) == 4 {
+	if v, ok := get(stun.AttrPriority); ok && len(v) == 4 {
 		x := uint32(v[0])<<24 | uint32(v[1])<<16 | uint32(v[2])<<8 | uint32(v[3])
 		out.Priority = &x
 	}
